@@ -56,6 +56,15 @@ def jobs(tier, seed):
                 out.append(_j('two-street', C.custom(
                     stacks, TWO_ST, deck='KUHN9', hand_types=('KuhnAny',), structure=structure,
                     antes=antes, blinds=blinds, trim=trim)))
+    # hands that can end without any pot: a dead small blind (0, 2) or a bring-in without antes - when everybody folds to
+    # the only forced bet, the chips on the table are the survivor's own bet and nothing else
+    for stacks in product((1, 2, 3, 5), repeat=3):
+        for antes in (0, 1):
+            out.append(_j('dead-small-blind', C.custom(stacks, TWO_ST, deck='KUHN9', hand_types=('KuhnAny',), antes=antes, blinds=(0, 2))))
+    for stacks in [(3, 5), (2, 4, 6), (1, 3, 2)]:
+        for game in ('FixedLimitSevenCardStud', 'FixedLimitRazz'):
+            for au in ('ALL', 'NONE'):
+                out.append(_j('bring-in-without-antes', C.stud(stacks, game=game, antes=0, autos=au), dev_bound=2))
     # 3-player straddle / button straddle / post layouts
     for blinds in [(1, 2, 4), {0: 1, 1: 2, -1: 4}, (1, 2, -2), (0, 2, 2)]:
         for stacks in [(3, 5, 8), (1, 2, 3), (8, 3, 2), (2, 2, 9), (5, 5, 5), (2, 8, 1)]:
@@ -72,7 +81,8 @@ def jobs(tier, seed):
                 for rake in [('pct', 1, 10, None, False), ('pct', 1, 2, 2, False),
                              ('pct', 1, 4, None, True), ('min', 1)]:
                     out.append(_j('rake', C.custom(stacks, TWO_ST, rake=rake, **base)))
-                out.append(_j('divmod', C.custom(stacks, TWO_ST, divmod='last', **base)))
+                for dm in ('last', 'pairs'):
+                    out.append(_j('divmod', C.custom(stacks, TWO_ST, divmod=dm, **base)))
                 for chips in ('fraction', 'float', 'decimal'):
                     out.append(_j('chips-' + chips, C.custom(stacks, TWO_ST, chips=chips, **base)))
                     out.append(_j('chips-' + chips + '-rake', C.custom(
